@@ -171,6 +171,14 @@ fn api_case(t: &mut Tape, rec: &mut Rec) -> CaseResult {
 }
 
 /// single-bit flips of the protected blob / parameters / (AEAD) bound public fields / packet tag
+/// does this (possibly damaged) secret key body ask for an Argon2 derivation that is not tiny?
+fn expensive_argon2(body: &[u8]) -> bool {
+    match keys::parse_key(body, true).and_then(|k| k.protection) {
+        Some(Protection::Aead { s2k: S2k::Argon2 { t, p, m_enc, .. }, .. }) | Some(Protection::Cfb { s2k: S2k::Argon2 { t, p, m_enc, .. }, .. }) => m_enc > 12 || t > 8 || p > 8,
+        _ => false,
+    }
+}
+
 fn tamper(t: &mut Tape, rec: &mut Rec, tag: u8, locked_body: &[u8], plain_body: &[u8], pw: &[u8], weak_mode: bool) -> CaseResult {
     let kb = keys::parse_key(locked_body, true).ok_or_else(|| f("C08:reference-key-parse", "locked body"))?;
     let pub_len = kb.public_body.len();
@@ -193,6 +201,12 @@ fn tamper(t: &mut Tape, rec: &mut Rec, tag: u8, locked_body: &[u8], plain_body: 
         let bit = t.below(8);
         let mut b = locked_body.to_vec();
         b[pos] ^= 1 << bit;
+        if expensive_argon2(&b) {
+            // the flip turned the S2K parameters into an Argon2 setting inside rPGP's documented
+            // ceiling (up to 2 GiB, t and p up to 32): running it is C19's business, not a tamper case
+            rec.label("tamper:skipped-expensive-argon2");
+            continue;
+        }
         rec.add_evals(1);
         rec.label(format!("tamper:{}", what.split(' ').next().unwrap()));
         match rpgp_unlock(tag, &b, pw) {
